@@ -10,8 +10,8 @@ from .recipes import containers_of
 from .c09 import run_recipe
 
 PROPERTY = 'C15'
-BOUNDS = ("Baked recipe programs as in C09 (quick: all 1-step and 70 seeded 2-step programs; thorough: all 2-step and 300 "
-          "seeded 3-step programs over the 19 templates, symbolic quantities, every stage split point); for every "
+BOUNDS = ("Baked recipe programs as in C09 (quick: all 1-step programs and every 2-step program whose steps share an object; thorough: all 2-step and 300 "
+          "seeded 3-step programs over the 21 templates, symbolic quantities, every stage split point); for every "
           "object used (containers A, B, C, S, F and the 2x2 plate P, per well), timeframes all / s1 / s2 restricted to "
           "those in which the object is touched, units uL and mg (thorough: + umol, mL, g): get_amount_remaining "
           "before/after equals the object's total content at the start/end of the timeframe in the eager ledger; "
@@ -30,8 +30,7 @@ def cells(tier, seed):
     p1 = [p for p in R.programs(1)]
     p2 = [p for p in R.programs(2) if len(p) == 2]
     if tier == 'quick':
-        rng.shuffle(p2)
-        progs = p1 + p2[:70]
+        progs = p1 + [p for p in p2 if R.interacting(p)]   # steps sharing an object; independent pairs: thorough tier
         units = ['uL', 'mg']
     else:
         p3 = [p for p in R.programs(3) if len(p) == 3]
@@ -42,10 +41,11 @@ def cells(tier, seed):
         for k in range(0, len(prog) + 1):
             if tier == 'quick' and k != 1:
                 continue
-            for unit in units:
-                out.append({'id': f"prog/{','.join(prog)}/k{k}/{unit}", 'fn': 'h_flows', 'round': 'lite', 'max_paths': 400,
-                            'cost': 2 ** len(prog), 'gens': 112,
-                            'params': {'prog': list(prog), 'split': k, 'unit': unit}})
+            groups = [units] if tier == 'quick' else [units[:2], units[2:]]
+            for gi, group in enumerate(groups):
+                out.append({'id': f"prog/{','.join(prog)}/k{k}/u{gi}", 'fn': 'h_flows', 'round': 'lite', 'max_paths': 400,
+                            'cost': 2 ** len(prog), 'gens': 200,
+                            'params': {'prog': list(prog), 'split': k, 'units': group}})
     return out
 
 
@@ -67,8 +67,12 @@ def h_flows(h):
         return
     rec, cast, objects, states, discards = out
     h.outcome = 'ok'
+    for unit in p['units']:
+        _flows(h, prog, split, rec, cast, objects, states, discards, unit)
+
+
+def _flows(h, prog, split, rec, cast, objects, states, discards, unit):
     lib = cast.lib
-    unit = p['unit']
     prefix, base = split_unit(unit)
     prec = h.env.config.precisions.get(unit, h.env.config.precisions['default'])
     half = Fr(1, 2 * 10**prec)
@@ -82,7 +86,7 @@ def h_flows(h):
             touched = [i for i in range(a, b) if states[i + 1][name] is not states[i][name]]
             if not touched:
                 continue         # the property speaks about objects used by at least one step of the timeframe
-            region = f"{name}/{fname}" + ('/slice-fill' if slice_fill and is_plate else '')
+            region = f"{unit}/{name}/{fname}" + ('/slice-fill' if slice_fill and is_plate else '')
             wells_a, wells_b = containers_of(states[a][name]), containers_of(states[b][name])
             # ---- amount remaining
             for mode, wells in (('before', wells_a), ('after', wells_b)):
